@@ -288,13 +288,18 @@ func (p *Pool) Run(specs []*Spec, progress func(done int)) []*Result {
 	return results
 }
 
-// RunFresh executes one spec in a brand-new worker process.
+// RunFresh executes one spec in a brand-new worker process. It is the confirmation
+// path of watchdog verdicts, so it gets three times the pool's per-run wall-clock limit.
 func (p *Pool) RunFresh(spec *Spec) *Result {
-	w, err := p.start()
+	q := *p
+	q.timeout = 3 * p.timeout
+	p2 := &q
+	w, err := p2.start()
 	if err != nil {
 		return &Result{ID: spec.ID, Fatal: "cannot start worker: " + err.Error(), FatalClass: "infra"}
 	}
 	defer w.kill()
-	res, _ := p.runOn(w, spec)
+	res, _ := p2.runOn(w, spec)
+	atomic.AddInt64(&p.Runs, 1)
 	return res
 }
